@@ -15,6 +15,10 @@
 (*  perm        : the same statistic for two orders of the bootstrap list. *)
 (*  chi2        : sum_chi2_ppf, scalar and array input.                    *)
 (*  history     : a sequence of calls sharing the module-level cache.      *)
+(*  callseq     : calls on ONE model function object whose consecutive     *)
+(*                arguments differ in exactly one of grid_pts, p0, ns,     *)
+(*                data, multinom, log, eps: each judged as a fresh call.   *)
+(*  godambe     : get_godambe called directly (G, H, J, mean score).       *)
 (*  screen      : asks only for which statistics the closed-form           *)
 (*                comparison is decidable for the case (perturbation small *)
 (*                enough for the first-order bounds, bound <= 1/4 of the   *)
@@ -37,48 +41,65 @@ MatWithin(M, X, E, slack) == \A a \in 1..Len(X) : \A b \in 1..Len(X) :
 
 \* ---------------------------------------------------------------- stencils
 Fn(r) == [Q |-> r.in.Q, b |-> r.in.b, c |-> r.in.c]
+\* "one" ranges over the admissible sidedness choices: the documented rule, and for a parameter within rounding of the
+\* threshold p*eps = 1e-6 either stencil (Godambe!SidedChoices) - one choice for the whole result
 FHess(r) ==
     IF Raised(r) THEN {"Raised"} ELSE
     LET f == Fn(r) p == r.in.p eps == r.in.eps n == Len(p)
-        h == Steps(p, eps)
-        exact == HessFD(LAMBDA x : QEval(f, x), p, eps)
-        mag == RMul(TauFD, QMag(f, p, h))
         H == r.out.H
+        Matches(one) == LET h == StepsWith(p, eps, one)
+                            exact == HessFDWith(LAMBDA x : QEval(f, x), p, eps, one)
+                            mag == RMul(TauFD, QMag(f, p, h))
+                        IN  \A a, b \in 1..n : Within(H[a][b], exact[a][b], RDiv(mag, RMul(h[a], h[b])))
     IN  F("HessShape", MatShape(H, n)) \cup
         (IF MatShape(H, n)
-         THEN F("HessStencil", \A a, b \in 1..n : Within(H[a][b], exact[a][b], RDiv(mag, RMul(h[a], h[b])))) \cup
-              F("HessExactOnQuadratic", exact = f.Q)
+         THEN F("HessStencil", \E one \in SidedChoices(p, eps) : Matches(one)) \cup
+              F("HessExactOnQuadratic", \A one \in SidedChoices(p, eps) : HessFDWith(LAMBDA x : QEval(f, x), p, eps, one) = f.Q)
          ELSE {})
 FGrad(r) ==
     IF Raised(r) THEN {"Raised"} ELSE
     LET f == Fn(r) p == r.in.p eps == r.in.eps n == Len(p)
-        h == Steps(p, eps)
-        exact == GradFD(LAMBDA x : QEval(f, x), p, eps)
-        mag == RMul(TauFD, QMag(f, p, h))
         g == r.out.g
+        Exact(one) == GradFDWith(LAMBDA x : QEval(f, x), p, eps, one)
+        Matches(one) == LET h == StepsWith(p, eps, one)
+                            exact == Exact(one)
+                            mag == RMul(TauFD, QMag(f, p, h))
+                        IN  \A a \in 1..n : Within(g[a], exact[a], RDiv(mag, h[a]))
     IN  F("GradShape", Len(g) = n) \cup
         (IF Len(g) = n
-         THEN F("GradStencil", \A a \in 1..n : Within(g[a], exact[a], RDiv(mag, h[a]))) \cup
-              F("GradExactCentral", \A a \in 1..n : ~OneSided(p[a], eps) => exact[a] = QGrad(f, p)[a]) \cup
-              F("GradExactLinear", QIsLinear(f) => exact = f.b)
+         THEN F("GradStencil", \E one \in SidedChoices(p, eps) : Matches(one)) \cup
+              F("GradExactCentral", \A one \in SidedChoices(p, eps) : \A a \in 1..n : ~one[a] => Exact(one)[a] = QGrad(f, p)[a]) \cup
+              F("GradExactLinear", QIsLinear(f) => \A one \in SidedChoices(p, eps) : Exact(one) = f.b)
          ELSE {})
 
 \* ---------------------------------------------------------------- closed forms with bounds
 \* x = the "in" part of a record: [md, d, eps, boots, adj, nested, full]
+\*     optional: folded (BOOLEAN: data and bootstraps are folded spectra, the model function returns unfolded ones),
+\*               blive (per bootstrap: which entries carry likelihood - a bootstrap has its own mask)
+IsFolded(x) == "folded" \in DOMAIN x /\ x.folded
+\* folded data are compared with the folded model (Godambe!FoldModel)
+Norm(x)   == IF IsFolded(x) THEN [x EXCEPT !.md = FoldModel(x.md)] ELSE x
 Theta(x)  == IF x.md.multinom THEN ThetaFit(x.md, x.d) ELSE "1"
 AllIdx(x) == [a \in 1..NPar(x.md) |-> a]
+\* the design restricted to the entries bootstrap k carries (unmasked in the model and in that bootstrap; the mask of the
+\* data plays no role for a bootstrap)
+BootDs(ds, x, k) == IF "blive" \in DOMAIN x
+                    THEN [ds EXCEPT !.live = {j \in 1..Len(x.blive[k]) : x.blive[k][j] /\ (IsFolded(x) => j \in LowerHalf(Len(x.blive[k])))}]
+                    ELSE ds
 \* everything the statistics need, for the parameter subset idx (1-based positions in the full vector q)
 CF(x, idx) ==
     LET ds == Design(x.md, Theta(x)) eps == x.eps
         nb == Len(x.boots)
-        gs == TLCEval([k \in 1..nb |-> VSubIdx(ScoreVec(ds, x.boots[k], x.adj[k]), idx)])
-        es == TLCEval([k \in 1..nb |-> VSubIdx(ErrScore(ds, x.boots[k], x.adj[k], eps, TauFD), idx)])
+        gs == TLCEval([k \in 1..nb |-> VSubIdx(ScoreVec(BootDs(ds, x, k), x.boots[k], x.adj[k]), idx)])
+        es == TLCEval([k \in 1..nb |-> VSubIdx(ErrScore(BootDs(ds, x, k), x.boots[k], x.adj[k], eps, TauFD), idx)])
     IN  [H  |-> MSub(InfoMat(ds, x.d), idx), EH |-> MSub(ErrInfo(ds, x.d, eps, TauFD), idx),
          J  |-> IF nb = 0 THEN <<>> ELSE MeanOf(TLCEval([k \in 1..nb |-> Outer(gs[k], gs[k])])),
          EJ |-> IF nb = 0 THEN <<>> ELSE ErrJ(gs, es),
          cU |-> IF nb = 0 THEN <<>> ELSE MeanOf(TLCEval([k \in 1..nb |-> <<gs[k]>>]))[1],
          EcU |-> IF nb = 0 THEN <<>> ELSE MeanOf(TLCEval([k \in 1..nb |-> <<es[k]>>]))[1],
-         central |-> \A a \in 1..Len(idx) : ~OneSided(ds.q[idx[a]], eps),
+         \* O(eps^2) needs the central stencil with the fractional step: the documented rule, and on the threshold itself
+         \* (product within rounding of 1e-6, "not smaller than 1e-6" in double precision) as well
+         central |-> \A a \in 1..Len(idx) : ~OneSided(ds.q[idx[a]], eps) \/ NearTie(ds.q[idx[a]], eps),
          q |-> ds.q]
 Diag(M) == [a \in 1..Len(M) |-> M[a][a]]
 \* a bound is informative when it is at most a quarter of the quantity it bounds
@@ -99,7 +120,8 @@ ExpGIM(x) == LET c == CF(x, AllIdx(x)) dec0 == c.central /\ InvResolvable(c.H, c
                       Hi == MInv(c.H) EHi == ErrInv(c.H, c.EH)
                       X2 == MMul(Hi, c.J) E2 == ErrProd(Hi, EHi, c.J, c.EJ)
                       V == Diag(MMul(X2, Hi)) EV == Diag(ErrProd(X2, E2, Hi, EHi))
-                  IN  [dec |-> SharpVec(V, EV), n |-> Len(c.H), H |-> c.H, EH |-> c.EH, G |-> g.G, EG |-> g.EG, V |-> V, EV |-> EV]
+                  IN  [dec |-> SharpVec(V, EV), n |-> Len(c.H), H |-> c.H, EH |-> c.EH, G |-> g.G, EG |-> g.EG, V |-> V, EV |-> EV,
+                       J |-> c.J, EJ |-> c.EJ, cU |-> c.cU, EcU |-> c.EcU]
 ExpLRT(x) == LET c == CF(x, x.nested) dec0 == c.central /\ InvResolvable(c.H, c.EH) IN
              IF ~dec0 THEN [dec |-> FALSE]
              ELSE LET Hi == MInv(c.H) EHi == ErrInv(c.H, c.EH)
@@ -122,8 +144,9 @@ ExpScore(x) == LET c == CF(x, x.nested) dec0 == c.central /\ InvResolvable(c.H, 
                         adj == Quad(c.cU, Ji, c.cU) eadj == RAdd(ErrQuad(c.cU, c.EcU, Ji, EJi), RMul(TauRel, Quad(ua, MAbs(Ji), ua)))
                         org == Quad(c.cU, Hi, c.cU) eorg == RAdd(ErrQuad(c.cU, c.EcU, Hi, EHi), RMul(TauRel, Quad(ua, MAbs(Hi), ua)))
                     IN  [dec |-> Sharp(adj, eadj) /\ Sharp(org, eorg), adj |-> adj, eadj |-> eadj, org |-> org, eorg |-> eorg]
-Expected(op, x) == CASE op = "fim" -> ExpFIM(x) [] op = "gim" -> ExpGIM(x) [] op = "lrt" -> ExpLRT(x)
-                     [] op = "wald" -> ExpWald(x) [] op = "score" -> ExpScore(x)
+Expected(op, x0) == LET x == Norm(x0) IN
+                    CASE op = "fim" -> ExpFIM(x) [] op \in {"gim", "godambe"} -> ExpGIM(x) [] op = "lrt" -> ExpLRT(x)
+                      [] op = "wald" -> ExpWald(x) [] op = "score" -> ExpScore(x)
 
 \* observed standard deviations u against variances v with bound e:  |u^2 - v| <= e + TauRel |v|,  u >= 0;
 \* where the closed-form variance is negative (information matrix not positive definite) the root is undefined: "nan"
@@ -141,6 +164,12 @@ Cmp(op, o, e) ==
            (IF MatShape(o.H, e.n) /\ MatShape(o.G, e.n) /\ Len(o.u) = e.n
             THEN F("GIMHessian", MatWithin(o.H, e.H, e.EH, TauRel)) \cup F("GIMMatrix", MatWithin(o.G, e.G, e.EG, TauRel)) \cup
                  F("GIMUncert", SdOK(o.u, e.V, e.EV)) ELSE {})
+      [] op = "godambe" ->      \* get_godambe called directly: (Godambe matrix, Hessian, J, mean score)
+           F("GodambeShape", MatShape(o.H, e.n) /\ MatShape(o.G, e.n) /\ MatShape(o.J, e.n) /\ Len(o.cU) = e.n) \cup
+           (IF MatShape(o.H, e.n) /\ MatShape(o.G, e.n) /\ MatShape(o.J, e.n) /\ Len(o.cU) = e.n
+            THEN F("GodambeHessian", MatWithin(o.H, e.H, e.EH, TauRel)) \cup F("GodambeMatrix", MatWithin(o.G, e.G, e.EG, TauRel)) \cup
+                 F("GodambeJ", MatWithin(o.J, e.J, e.EJ, TauRel)) \cup
+                 F("GodambeMeanScore", \A a \in 1..e.n : Within(o.cU[a], e.cU[a], RAdd(e.EcU[a], RMul(TauRel, RAbs(e.cU[a]))))) ELSE {})
       [] op = "lrt"   -> F("LRTAdjust", Within(o.v, e.v, RAdd(e.e, RMul(TauRel, RAbs(e.v)))))
       [] op = "wald"  -> F("WaldAdjusted", Within(o.adj, e.adj, e.eadj)) \cup F("WaldOriginal", Within(o.org, e.org, e.eorg))
       [] op = "score" -> F("ScoreAdjusted", Within(o.adj, e.adj, e.eadj)) \cup F("ScoreOriginal", Within(o.org, e.org, e.eorg))
@@ -148,7 +177,7 @@ Need(r, ok) == Assert(ok, <<"closed-form comparison not decidable for record (sc
 FStat(r) == IF Raised(r) THEN {"Raised"}
             ELSE LET e == Expected(r.op, r.in) IN IF Need(r, e.dec) THEN Cmp(r.op, r.out, e) ELSE {}
 \* screening record: which of the five statistics can be decided for this case
-FScreen(r) == UNION {F("Undecidable_" \o op, Expected(op, r.in).dec) : op \in {o \in {"fim", "gim", "lrt", "wald", "score"} : \E j \in 1..Len(r.in.ops) : r.in.ops[j] = o}}
+FScreen(r) == UNION {F("Undecidable_" \o op, Expected(op, r.in).dec) : op \in {o \in {"fim", "gim", "godambe", "lrt", "wald", "score"} : \E j \in 1..Len(r.in.ops) : r.in.ops[j] = o}}
 
 \* the same statistic for two orders of the bootstrap list (flattened numbers): only summation round-off may differ
 MaxAbsSeq(v) == RSeqMaxAbs(v)
@@ -205,14 +234,54 @@ FHistory(r) ==
                     \A j \in 1..Len(a) : Within(a[j], b[j], RMul("1/1000000000", RAbs(b[j]))))
          ELSE {})
 
+\* ---------------------------------------------------------------- call sequences on one model function object
+\* One model function object M(params, ns, grid_pts), linear in params for every (ns, grid_pts) - in.table lists its
+\* components per (ns, grid_pts).  Step k is a real call (fn, inputs x, log, sample size ns, grid pts); consecutive steps
+\* differ in exactly one argument.  "persistent": the call hands M itself to the cache (get_godambe called directly,
+\* FIM_uncert / GIM_uncert with multinom=False); otherwise M is wrapped in a function object created for the call.
+\* The cache machine of module Godambe with the specified key (function object and the FULL point <<params, ns, grid_pts>>)
+\* says which (model, point) each call is served; the statistic must be the closed form of the model evaluated at the
+\* served sample size and grid - under the specified key always the call's own: every call is judged as a fresh call.
+SeqObj(s, cache, n) ==
+    IF s.persistent THEN [addr |-> 1, model |-> "M"]
+    ELSE [addr |-> CHOOSE a \in 2..(2 + n) : a \notin {key[1] : key \in DOMAIN cache}, model |-> "M"]
+SeqPt(s) == <<s.x.md.p, s.ns, s.pts>>
+RECURSIVE SeqServed(_, _, _)
+SeqServed(r, cache, k) ==
+    IF k > Len(r.in.steps) THEN <<>>
+    ELSE LET s == r.in.steps[k] o == SeqObj(s, cache, Len(r.in.steps)) pt == SeqPt(s) IN
+         <<ServedK(cache, o, pt, KeyPartsFull)>> \o SeqServed(r, CachePutK(cache, o, pt, KeyPartsFull), k + 1)
+\* the inputs of step s with the model as evaluated at the served point
+SeqIn(r, s, sv) ==
+    LET T == CHOOSE t \in {r.in.table[j] : j \in 1..Len(r.in.table)} : t.ns = sv[2][2] /\ t.pts = sv[2][3] IN
+    [s.x EXCEPT !.md = [B0 |-> T.B0, B |-> T.B, p |-> sv[2][1], multinom |-> s.x.md.multinom, live |-> s.x.md.live]]
+SeqFns == {"fim", "gim", "godambe", "lrt"}
+FSeq(r) ==
+    IF Raised(r) THEN {"Raised"} ELSE
+    LET n == Len(r.in.steps)
+        served == SeqServed(r, <<>>, 1)
+    IN  F("SeqFunctions", \A k \in 1..n : r.in.steps[k].fn \in SeqFns) \cup
+        F("SeqLength", Len(r.out.res) = n /\ Len(r.out.fresh) = n) \cup
+        (IF Len(r.out.res) = n /\ Len(r.out.fresh) = n
+         THEN F("SeqOwnArguments", \A k \in 1..n :
+                    LET s == r.in.steps[k] IN
+                    \* derivatives in log parameters have no closed form here: those steps are judged by history independence only
+                    s.log \/ (LET e == Expected(s.fn, SeqIn(r, s, served[k])) IN Need(r, e.dec) /\ Cmp(s.fn, r.out.res[k], e) = {})) \cup
+              F("SeqHistoryIndependent", \A k \in 1..n :
+                    LET a == r.out.flat[k] b == r.out.freshflat[k] IN
+                    \* (the same token - an undefined root "nan" in both - is agreement too)
+                    Len(a) = Len(b) /\ \A j \in 1..Len(a) : a[j] = b[j] \/ (IsNum(a[j]) /\ IsNum(b[j]) /\ Within(a[j], b[j], RMul("1/1000000000", RAbs(b[j])))))
+         ELSE {})
+
 Failed(r) ==
     CASE r.op = "hess"    -> FHess(r)
       [] r.op = "grad"    -> FGrad(r)
-      [] r.op \in {"fim", "gim", "lrt", "wald", "score"} -> FStat(r)
+      [] r.op \in {"fim", "gim", "godambe", "lrt", "wald", "score"} -> FStat(r)
       [] r.op = "screen"  -> FScreen(r)
       [] r.op = "perm"    -> FPerm(r)
       [] r.op = "chi2"    -> FChi2(r)
       [] r.op = "history" -> FHistory(r)
+      [] r.op = "callseq" -> FSeq(r)
       [] OTHER            -> {"UnknownOp"}
 
 Init == i = 0
